@@ -430,15 +430,16 @@ Qed.
 
 (* the invariant between the world of one object and what the property remembers *)
 Definition ginv (kind : Z) (g : gworld) (sp : hspec) : Prop :=
-  o_w (g_obj g) = hs_w sp /\ o_h (g_obj g) = hs_h sp /\ g_placed g = hs_placed sp /\
+  g_placed g = hs_placed sp /\
   match hs_cur sp with
   | Some p =>
-      g_lastpic g = Some p /\
+      o_w (g_obj g) = hs_w sp /\ o_h (g_obj g) = hs_h sp /\ g_lastpic g = Some p /\
       if kind =? 2
-      then (o_uploaded (g_obj g) = false /\ o_buf (g_obj g) = Some p /\ hs_resized sp = true) \/
-           (o_uploaded (g_obj g) = true /\ g_term g = Some p /\ hs_term sp = Some p)
+      then 0 < o_w (g_obj g) /\ 0 < o_h (g_obj g) /\
+           ((o_uploaded (g_obj g) = false /\ o_buf (g_obj g) = Some p /\ hs_resized sp = true) \/
+            (o_uploaded (g_obj g) = true /\ g_term g = Some p /\ hs_term sp = Some p))
       else o_buf (g_obj g) = Some p
-  | None => if kind =? 2 then True else o_buf (g_obj g) = None
+  | None => if kind =? 2 then o_w (g_obj g) = 0 \/ o_h (g_obj g) = 0 else o_buf (g_obj g) = None
   end.
 
 Lemma opic_eqb_refl p : opic_eqb p p = true.
@@ -451,46 +452,49 @@ Proof.
   intros H. assert (a = c /\ b = d) as [-> ->] by lia. reflexivity.
 Qed.
 
-
 Ltac fin := repeat match goal with
                    | |- _ /\ _ => split
                    | |- _ = _ => reflexivity
                    | |- True => exact Logic.I
                    end.
 
+Ltac gsimpl := cbn [andb orb negb b2z pic_w pic_h hs_cur hs_w hs_h hs_term hs_resized hs_placed
+                    g_obj g_placed g_term g_lastpic o_w o_h o_uploaded o_buf Z.eqb Pos.eqb].
+
 Lemma show_step_ok kind wPix hPix cw ch g sp ww wh g' ob :
   kind = 2 \/ kind = 3 -> ginv kind g sp ->
   gfx_step kind wPix hPix cw ch g (HShow ww wh) = Some (g', ob) ->
-  (kind =? 2) && negb (negb (opic_eqb (hs_cur sp) None)) = false ->
   show_ok kind sp ww wh ob = true /\ ginv kind g' (hspec_show kind sp ww wh) /\
   hs_cur (hspec_show kind sp ww wh) = hs_cur sp.
 Proof.
-  intros Hk I ST NG.
+  intros Hk I ST.
   destruct g as [[ow oh up buf] pl term lp]. destruct sp as [cur hw hh ht rs hp].
-  unfold ginv in I. cbn [g_obj g_placed g_term g_lastpic o_w o_h o_uploaded o_buf hs_cur hs_w hs_h hs_term hs_resized hs_placed] in *.
-  destruct I as [-> [-> [-> IC]]].
-  assert (F : negb ((ww <? hw) || (wh <? hh)) = (hw <=? ww) && (hh <=? wh)) by lia.
+  unfold ginv in I. gsimpl. cbn [g_obj g_placed g_term g_lastpic o_w o_h o_uploaded o_buf hs_cur hs_w hs_h hs_term hs_resized hs_placed] in *.
+  destruct I as [-> IC].
   unfold show_ok, hspec_show, ginv. unfold hspec_places.
   cbn [gfx_step g_obj g_placed g_term g_lastpic o_w o_h o_uploaded o_buf hs_cur hs_w hs_h hs_term hs_resized hs_placed] in *.
-  destruct Hk as [-> | ->]; cbn [Z.eqb Pos.eqb] in *; injection ST as <- <-; rewrite F, !Z.eqb_refl.
-  - destruct cur as [[pw ph]|]; [|discriminate]. destruct IC as [-> IC].
-    change (opic_eqb (Some (pw, ph)) None) with false. cbn [negb andb].
-    destruct IC as [[-> [-> ->]] | [-> [-> ->]]]; cbn [negb andb];
-      destruct ((hw <=? ww) && (hh <=? wh));
-      cbn [andb negb b2z pic_w pic_h hs_cur hs_w hs_h hs_term hs_resized hs_placed g_obj g_placed g_term g_lastpic o_w o_h o_uploaded o_buf Z.eqb Pos.eqb];
-      rewrite ?opic_eqb_refl; change (opic_eqb (Some (pw, ph)) None) with false;
-      cbn [negb andb b2z Z.eqb Pos.eqb pic_w pic_h]; rewrite ?Z.eqb_refl.
-    + split; [destruct (negb (opic_eqb ht (Some (pw, ph)))); reflexivity|]. fin. right. fin.
-    + fin. left. fin.
-    + split; [destruct rs; reflexivity|]. fin. right. fin.
-    + fin. right. fin.
-  - destruct cur as [[pw ph]|].
-    + destruct IC as [-> ->]. change (opic_eqb (Some (pw, ph)) None) with false. cbn [negb andb].
-      destruct ((hw <=? ww) && (hh <=? wh));
-      cbn [andb negb b2z pic_w pic_h hs_cur hs_w hs_h hs_term hs_resized hs_placed g_obj g_placed g_term g_lastpic o_w o_h o_uploaded o_buf Z.eqb Pos.eqb];
-      rewrite ?opic_eqb_refl; cbn [negb andb b2z Z.eqb Pos.eqb pic_w pic_h]; rewrite ?Z.eqb_refl; fin.
-    + rewrite IC. cbn [opic_eqb option_eqb negb andb b2z Z.eqb Pos.eqb]. rewrite !andb_false_r.
-      cbn [andb negb b2z pic_w pic_h hs_cur hs_w hs_h hs_term hs_resized hs_placed g_obj g_placed g_term g_lastpic o_w o_h o_uploaded o_buf Z.eqb Pos.eqb]. fin.
+  destruct Hk as [-> | ->]; cbn [Z.eqb Pos.eqb] in *; injection ST as <- <-; rewrite ?Z.eqb_refl.
+  - (* kitty *)
+    destruct cur as [[pw ph]|].
+    + destruct IC as [-> [-> [-> [PW [PH IC]]]]].
+      assert (F : negb ((hw =? 0) || (hh =? 0)) && negb ((ww <? hw) || (wh <? hh)) = (hw <=? ww) && (hh <=? wh)) by lia.
+      rewrite F. change (opic_eqb (Some (pw, ph)) None) with false. rewrite !Z.eqb_refl. gsimpl.
+      destruct IC as [[-> [-> ->]] | [-> [-> ->]]]; gsimpl;
+        destruct ((hw <=? ww) && (hh <=? wh)); gsimpl;
+        rewrite ?opic_eqb_refl; change (opic_eqb (Some (pw, ph)) None) with false; gsimpl; rewrite ?Z.eqb_refl.
+      * split; [destruct (negb (opic_eqb ht (Some (pw, ph)))); reflexivity|]. fin; try assumption. right. fin.
+      * fin; try assumption. left. fin.
+      * split; [destruct rs; reflexivity|]. fin; try assumption. right. fin.
+      * fin; try assumption. right. fin.
+    + assert (F : negb ((ow =? 0) || (oh =? 0)) = false) by lia. rewrite F.
+      cbn [opic_eqb option_eqb]. gsimpl. fin. exact IC.
+  - (* sixel *)
+    destruct cur as [[pw ph]|].
+    + destruct IC as [-> [-> [-> ->]]].
+      assert (F : negb ((ww <? hw) || (wh <? hh)) = (hw <=? ww) && (hh <=? wh)) by lia. rewrite F.
+      change (opic_eqb (Some (pw, ph)) None) with false. rewrite !Z.eqb_refl. gsimpl.
+      destruct ((hw <=? ww) && (hh <=? wh)); gsimpl; rewrite ?opic_eqb_refl; gsimpl; rewrite ?Z.eqb_refl; fin.
+    + rewrite IC. cbn [opic_eqb option_eqb]. gsimpl. rewrite !andb_false_r. gsimpl. fin.
 Qed.
 
 Lemma gfx_run_cons kind wPix hPix cw ch g o t obs :
@@ -503,15 +507,16 @@ Proof.
   exists g', ob, obs'. repeat split. exact E.
 Qed.
 
+(* the model meets the property predicate on every history *)
 Theorem gfx_model_ok kind wPix hPix cw ch :
   kind = 2 \/ kind = 3 -> geom_ok wPix hPix cw ch = true ->
   forall ops g sp obs,
     forallb hop_ok ops = true -> ginv kind g sp ->
     gfx_run kind wPix hPix cw ch g ops = Some obs ->
-    no_encoding_guard kind (negb (opic_eqb (hs_cur sp) None)) (combine ops obs) = false ->
     gfxhist_ok kind wPix hPix cw ch sp (combine ops obs) = true.
 Proof.
-  intros Hk G. induction ops as [|o t IH]; intros g sp obs OK I R NG; [reflexivity|].
+  intros Hk G. destruct (geom_ok_dom _ _ _ _ G) as [_ [_ [Dcw Dch]]].
+  induction ops as [|o t IH]; intros g sp obs OK I R; [reflexivity|].
   cbn [forallb] in OK. apply andb_prop in OK. destruct OK as [O1 O2].
   destruct (gfx_run_cons _ _ _ _ _ _ _ _ _ R) as [g' [ob [obs' [ST [RT ->]]]]]. clear R.
   cbn [combine] in *.
@@ -519,32 +524,36 @@ Proof.
   - (* Resize *)
     cbn [hop_ok] in O1. destruct (gfx_resize_facts wPix hPix cw ch w h G O1) as [nw [nh [E [P1 [P2 RO]]]]].
     cbn [gfx_step] in ST. rewrite E in ST. unfold pix_cells in ST.
-    injection ST as <- <-. cbn [gfxhist_ok no_encoding_guard] in *. rewrite RO. cbn [Z.eqb andb].
-    refine (IH _ _ _ O2 _ RT _).
-    + destruct g as [[ow oh up buf] pl term lp]. destruct sp as [cur hw hh ht rs hp].
-      unfold ginv in *. unfold hspec_resize.
-      cbn [g_obj g_placed g_term g_lastpic o_w o_h o_uploaded o_buf hs_cur hs_w hs_h hs_term hs_resized hs_placed] in *.
-      destruct I as [_ [_ [-> _]]].
-      assert (EM : (nw <=? 0) || (nh <=? 0) = negb ((0 <? nw) && (0 <? nh))) by lia. rewrite EM.
-      destruct Hk as [-> | ->]; cbn [Z.eqb Pos.eqb]; destruct ((0 <? nw) && (0 <? nh)); cbn [negb o_w o_h o_uploaded o_buf]; fin.
-      left. fin.
-    + unfold hspec_resize. cbn [hs_cur]. destruct ((0 <? nw) && (0 <? nh)); exact NG.
+    injection ST as <- <-. cbn [gfxhist_ok]. rewrite RO. cbn [Z.eqb andb].
+    refine (IH _ _ _ O2 _ RT).
+    destruct g as [[ow oh up buf] pl term lp]. destruct sp as [cur hw hh ht rs hp].
+    unfold ginv in *. unfold hspec_resize.
+    cbn [g_obj g_placed g_term g_lastpic o_w o_h o_uploaded o_buf hs_cur hs_w hs_h hs_term hs_resized hs_placed] in *.
+    destruct I as [-> _].
+    assert (EM : (nw <=? 0) || (nh <=? 0) = negb ((0 <? nw) && (0 <? nh))) by lia. rewrite EM.
+    unfold dom in Dcw, Dch.
+    destruct Hk as [-> | ->]; cbn [Z.eqb Pos.eqb]; destruct ((0 <? nw) && (0 <? nh)) eqn:NE; cbn [negb o_w o_h o_uploaded o_buf]; fin.
+    + apply ceil_div_pos; lia.
+    + apply ceil_div_pos; lia.
+    + left. fin.
+    + assert (nw = 0 \/ nh = 0) as [-> | ->] by lia; [left | right]; apply ceil_div_0; lia.
   - (* Show *)
-    cbn [gfxhist_ok no_encoding_guard] in *. apply orb_false_iff in NG. destruct NG as [NG1 NG2].
-    destruct (show_step_ok _ _ _ _ _ _ _ _ _ _ _ Hk I ST NG1) as [S1 [S2 S3]]. rewrite S1. cbn [andb].
-    refine (IH _ _ _ O2 S2 RT _). rewrite S3. exact NG2.
+    cbn [gfxhist_ok].
+    destruct (show_step_ok _ _ _ _ _ _ _ _ _ _ _ Hk I ST) as [S1 [S2 S3]]. rewrite S1. cbn [andb].
+    exact (IH _ _ _ O2 S2 RT).
   - (* Destroy *)
-    cbn [gfx_step] in ST. cbn [gfxhist_ok no_encoding_guard] in *.
+    cbn [gfx_step] in ST. cbn [gfxhist_ok].
     destruct g as [[ow oh up buf] pl term lp]. destruct sp as [cur hw hh ht rs hp].
     unfold ginv in I. cbn [g_obj g_placed g_term g_lastpic o_w o_h o_uploaded o_buf hs_cur hs_w hs_h hs_term hs_resized hs_placed] in *.
-    destruct I as [-> [-> [-> _]]].
+    destruct I as [-> _].
     destruct Hk as [-> | ->]; cbn [Z.eqb Pos.eqb] in *; injection ST as <- <-; cbn [Z.eqb andb];
-      (refine (IH _ _ _ O2 _ RT _); [|exact NG]); unfold ginv, hspec_destroy;
+      refine (IH _ _ _ O2 _ RT); unfold ginv, hspec_destroy;
       cbn [g_obj g_placed g_term g_lastpic o_w o_h o_uploaded o_buf hs_cur hs_w hs_h hs_term hs_resized hs_placed Z.eqb Pos.eqb]; fin.
+    left. reflexivity.
 Qed.
 
 Lemma ginv_new kind : kind = 2 \/ kind = 3 -> ginv kind gworld0 hspec0.
-Proof. intros [-> | ->]; unfold ginv; cbn; repeat split. Qed.
+Proof. intros [-> | ->]; unfold ginv; cbn; fin. left. reflexivity. Qed.
 
 Lemma gfx_run_total kind wPix hPix cw ch :
   geom_ok wPix hPix cw ch = true ->
@@ -561,7 +570,7 @@ Proof.
   destruct S as [g' [ob ->]]. destruct (IH g' O2) as [obs' ->]. eexists; reflexivity.
 Qed.
 
-(* the cell size after any history is that of the last Resize *)
+(* the cell size after any history is that of the last Resize (none after a KittyImage's Destroy) *)
 Theorem gfx_cell_size_after_history kind wPix hPix cw ch :
   geom_ok wPix hPix cw ch = true ->
   forall ops g acc g',
@@ -571,7 +580,7 @@ Theorem gfx_cell_size_after_history kind wPix hPix cw ch :
     | None => o_w (g_obj g) = 0 /\ o_h (g_obj g) = 0
     end ->
     gfx_exec kind wPix hPix cw ch g ops = Some g' ->
-    match last_box acc ops with
+    match last_box kind acc ops with
     | Some (w, h) => kitty_cell_size wPix hPix w h cw ch = Some (o_w (g_obj g'), o_h (g_obj g'))
     | None => o_w (g_obj g') = 0 /\ o_h (g_obj g') = 0
     end.
@@ -589,12 +598,13 @@ Proof.
       destruct (kind =? 2); destruct ((nw <=? 0) || (nh <=? 0)); reflexivity.
     + apply (IH g1 acc g' O2); [|exact E].
       cbn [gfx_step] in ST. destruct (kind =? 2); injection ST as <- _; cbn [g_obj]; [|exact A].
-      destruct (negb ((ww <? o_w (g_obj g)) || (wh <? o_h (g_obj g))) && negb (o_uploaded (g_obj g))); exact A.
-    + apply (IH g1 acc g' O2); [|exact E].
-      cbn [gfx_step] in ST. destruct (kind =? 2); injection ST as <- _; cbn [g_obj]; exact A.
+      match goal with |- context [if ?c then _ else _] => destruct c end; exact A.
+    + cbn [gfx_step] in ST. destruct (kind =? 2); injection ST as <- _.
+      * refine (IH _ None g' O2 _ E). cbn [g_obj o_w o_h]. split; reflexivity.
+      * refine (IH _ acc g' O2 _ E). cbn [g_obj o_w o_h]. exact A.
 Qed.
 
-(* a Sixel is never under the guard *)
+(* a Sixel was never under the former guard *)
 Lemma sixel_unguarded tr : forall cur, no_encoding_guard 3 cur tr = false.
 Proof.
   induction tr as [|[o ob] t IH]; intros cur; [reflexivity|].
@@ -614,34 +624,31 @@ Proof. intros Hk Hs OK R. exact (block_model_ok kind src Hk Hs ops b_new bspec0 
 Theorem gfx_model_ok_new kind wPix hPix cw ch ops obs :
   kind = 2 \/ kind = 3 -> geom_ok wPix hPix cw ch = true -> forallb hop_ok ops = true ->
   gfx_run kind wPix hPix cw ch gworld0 ops = Some obs ->
-  no_encoding_guard kind false (combine ops obs) = false ->
   gfxhist_ok kind wPix hPix cw ch hspec0 (combine ops obs) = true.
-Proof. intros Hk G OK R NG. exact (gfx_model_ok kind wPix hPix cw ch Hk G ops gworld0 hspec0 obs OK (ginv_new kind Hk) R NG). Qed.
+Proof. intros Hk G OK R. exact (gfx_model_ok kind wPix hPix cw ch Hk G ops gworld0 hspec0 obs OK (ginv_new kind Hk) R). Qed.
 
-Theorem sixel_model_ok_new wPix hPix cw ch ops obs :
+Theorem gfx_cell_size_after_history_new kind wPix hPix cw ch ops g :
   geom_ok wPix hPix cw ch = true -> forallb hop_ok ops = true ->
-  gfx_run 3 wPix hPix cw ch gworld0 ops = Some obs ->
-  gfxhist_ok 3 wPix hPix cw ch hspec0 (combine ops obs) = true.
-Proof. intros G OK R. apply gfx_model_ok_new; auto. apply sixel_unguarded. Qed.
-
-Theorem gfx_cell_size_after_history_new kind wPix hPix cw ch ops g w h :
-  geom_ok wPix hPix cw ch = true -> forallb hop_ok ops = true ->
-  gfx_exec kind wPix hPix cw ch gworld0 ops = Some g -> last_box None ops = Some (w, h) ->
-  kitty_cell_size wPix hPix w h cw ch = Some (o_w (g_obj g), o_h (g_obj g)) /\
-  (0 < w -> 0 < h ->
-   0 <= o_w (g_obj g) <= w /\ 0 <= o_h (g_obj g) <= h /\
-   o_w (g_obj g) <= ceil_div wPix cw /\ o_h (g_obj g) <= ceil_div hPix ch).
+  gfx_exec kind wPix hPix cw ch gworld0 ops = Some g ->
+  match last_box kind None ops with
+  | Some (w, h) =>
+      kitty_cell_size wPix hPix w h cw ch = Some (o_w (g_obj g), o_h (g_obj g)) /\
+      (0 < w -> 0 < h ->
+       0 <= o_w (g_obj g) <= w /\ 0 <= o_h (g_obj g) <= h /\
+       o_w (g_obj g) <= ceil_div wPix cw /\ o_h (g_obj g) <= ceil_div hPix ch)
+  | None => o_w (g_obj g) = 0 /\ o_h (g_obj g) = 0
+  end.
 Proof.
-  intros G OK E L.
+  intros G OK E.
   pose proof (gfx_cell_size_after_history kind wPix hPix cw ch G ops gworld0 None g OK (conj eq_refl eq_refl) E) as K.
-  rewrite L in K. split; [exact K|]. intros Pw Ph.
-  assert (B : box_ok w h = true).
-  { assert (Q : forall l acc, forallb hop_ok l = true ->
-                match acc with Some (a, b) => box_ok a b = true | None => True end ->
-                match last_box acc l with Some (a, b) => box_ok a b = true | None => True end).
-    { induction l as [|o t IH]; intros acc O A; [exact A|]. cbn [forallb] in O. apply andb_prop in O. destruct O as [O1 O2].
-      destruct o; cbn [last_box]; apply IH; auto. }
-    specialize (Q ops None OK Logic.I). rewrite L in Q. exact Q. }
+  assert (Q : forall l acc, forallb hop_ok l = true ->
+              match acc with Some (a, b) => box_ok a b = true | None => True end ->
+              match last_box kind acc l with Some (a, b) => box_ok a b = true | None => True end).
+  { induction l as [|o t IH]; intros acc O A; [exact A|]. cbn [forallb] in O. apply andb_prop in O. destruct O as [O1 O2].
+    destruct o; cbn [last_box]; apply IH; auto. destruct (kind =? 2); [exact Logic.I | exact A]. }
+  specialize (Q ops None OK Logic.I).
+  destruct (last_box kind None ops) as [[w h]|]; [|exact K].
+  split; [exact K|]. intros Pw Ph.
   destruct (geom_ok_dom _ _ _ _ G) as [DW [DH [Dcw Dch]]].
   assert (Dw : dom w) by (unfold box_ok, dom in *; lia). assert (Dh : dom h) by (unfold box_ok, dom in *; lia).
   destruct (kitty_cells_fit wPix hPix w h cw ch DW DH Dw Dh Dcw Dch) as [c1 [c2 [KE F]]].
